@@ -26,6 +26,21 @@ CHECKS = {
         text="conv_state_restored/conv_order_independent hold for every pandoc tree and every starting state; outline_spec for every header list; header_step/content_step describe each parser step as an edit of the abstract path map. The model converter and parser are run against skops.card._markup/_parser on generated pandoc JSON (no pandoc binary needed) and the property's sentences are evaluated on the implementation.",
         note="Trusted: Lean kernel; hand model tied by correspondence; driver JSON decoding glue; pandoc Figure excluded; whole-document content theorem is stated per step (content_step), not as one closed formula. Known finding: duplicate sibling headings lose the earlier body.",
         design="6/C15"),
+    "C01": dict(
+        technique="Lean 4 proof (audit passed => every name resolution of construct is vouched, by mutual induction over the node tree, under a decidable side-condition on the per-loader table regenerated from the source by an AST translator) + instrumented differential correspondence of load",
+        text="audit_passed_only_vouched/load_only_vouched quantify over every node tree and trusted list; table_vouched (by decide) re-checks the side-condition on the table the translator extracts from the current _construct/__init__/get_unsafe_set of all 29 registered loaders; the model's tree, verdict and event trace are compared with the real get_tree/load under patched resolvers, audit hooks and canary modules on generated adversarial archives.",
+        note="Trusted: Lean kernel; harness/translate/nodes.py (AST symbolic executor; unknown syntax becomes an `unknown` use that no obligation accepts); the memo invariant for CachedNode targets (hypothesis `Safe` for trees with references; NoRefs trees are fully covered); library calls (np.load allow_pickle=False, load_npz, json.loads) inert by contract; calls made inside vouched callees are not modelled.",
+        design="6/C01"),
+    "C02": dict(
+        technique="Lean 4 proof (tree building performs no effect for every tree, from the generated AllInitInert side-condition and flow facts) + instrumented runs of get_untrusted_types / visualize / pre-verdict load",
+        text="tree_building_inert for every node tree; table_init_inert and flow_facts (by decide) on tables regenerated from the source; on every generated archive get_untrusted_types, visualize and refused loads are run under resolver patches, sys.modules diff, audit hooks and canary ledger and must show no activity.",
+        note="Trusted: Lean kernel; translator (any call in an __init__ that is not on the inert allow-list becomes an init effect); failing get_tree runs are covered by the instrumented runs, not by the theorem.",
+        design="6/C02"),
+    "C03": dict(
+        technique="Lean 4 proof (unsafe(T) = unsafe(None) filtered by T; verdict exact; monotone in T; sorted duplicate-free report) + differential correspondence + T-matrix oracle on the implementation",
+        text="verdict_exact/enlarging_T/T_as_set/reported_sorted_nodup hold for every tree and T under the generated AllCallerPlus side-condition; flow facts pin trusted=True rejection, audit-before-construct, sorted messages; the implementation is exercised with subsets/supersets/permutations/duplicates/tuples/type objects and data= vs file=.",
+        note="Trusted: Lean kernel; translator; string order = code point order on both sides; deep equality of loaded results uses harness/compare.py.",
+        design="6/C03"),
 }
 
 PENDING_REASON = "not claimed yet: the model/check for this property is still being built in this round (see DESIGN.md section 11); it is not 'not applicable' in principle"
